@@ -81,7 +81,19 @@ def _is_failure_arg(u, a):
 def r19_2(run):
     pp = PP(run)
     sc = PU(run, '_status_client')
-    PROG = (names_defined_by(sc, lambda v: "['PROGRESS']" in src(v)) or ['prog'])[0]
+    PROG = (names_defined_by(sc, lambda v: "['PROGRESS']" in src(v) and not isinstance(v, (ast.Tuple, ast.List))) or [None])[0]
+    PROG_EXPR = None
+    if PROG is None:
+        # the fields travel as a tuple that is unpacked later: (int(kw['PROGRESS']), ...) = record; prog, tag, summary = record
+        for rec in names_defined_by(sc, lambda v: isinstance(v, (ast.Tuple, ast.List)) and "['PROGRESS']" in src(v)):
+            tv = [n.value for n in walk_unit(sc) if isinstance(n, ast.Assign) and assign_to(n, rec) is not None and isinstance(n.value, (ast.Tuple, ast.List))]
+            pos = [i for i, e in enumerate(tv[0].elts) if "['PROGRESS']" in src(e)] if tv else []
+            for n in walk_unit(sc):
+                if isinstance(n, ast.Assign) and isinstance(n.targets[0], (ast.Tuple, ast.List)) and dotted(n.value) == rec and pos and len(n.targets[0].elts) == len(tv[0].elts) \
+                        and isinstance(n.targets[0].elts[pos[0]], ast.Name):
+                    PROG, PROG_EXPR = n.targets[0].elts[pos[0]].id, tv[0].elts[pos[0]]
+    if PROG is None:
+        raise Undecided('_status_client: the local that holds the PROGRESS value was not found')
     for u in class_units(run.idx, pp):
         for c in calls_in(u, 'self._maybe_notify_connected'):
             arg = c.args[0] if c.args else None
@@ -92,11 +104,18 @@ def r19_2(run):
             if ok:
                 g = cfg_of(sc)
                 for n in g.nodes_containing(c):
-                    gd = g.guarded_by(n, lambda t: isinstance(t, ast.Compare) and dotted(t.left) == PROG and isinstance(t.ops[0], (ast.Eq, ast.NotEq)) and const(t.comparators[0]) == 100)
-                    run.ob('R19.2', sc, c, 'success only at PROGRESS=100', any((lab == 'T') == isinstance(t.ast.ops[0], ast.Eq) for t, lab in gd), slot='prog-100',
+                    # every feasible path to the announcement (flags set to constants are followed) has taken prog == 100 and
+                    # the BOOTSTRAP test the right way
+                    def took(p_, pred, want):
+                        return any(x.kind == 'test' and pred(x.ast) and want(x.ast, lab_) for x, lab_ in p_.steps)
+                    ps_ = [p_ for p_ in g.paths(stop=lambda x, n=n: x is n, follow_exc=False) if p_.last is n]
+                    run.paths_enumerated += len(ps_)
+                    is100 = lambda t: isinstance(t, ast.Compare) and dotted(t.left) == PROG and isinstance(t.ops[0], (ast.Eq, ast.NotEq)) and const(t.comparators[0]) == 100
+                    isbs = lambda t: isinstance(t, ast.Compare) and len(t.ops) == 1 and isinstance(t.ops[0], (ast.Eq, ast.NotEq)) and const(t.comparators[0]) == 'BOOTSTRAP'
+                    ok1 = bool(ps_) and all(took(p_, is100, lambda t, l: (l == 'T') == isinstance(t.ops[0], ast.Eq)) for p_ in ps_)
+                    run.ob('R19.2', sc, c, 'success only at PROGRESS=100', ok1, slot='prog-100',
                            message='launch success reachable without prog == 100')
-                    gd2 = g.guarded_by(n, lambda t: isinstance(t, ast.Compare) and const(t.comparators[0]) == 'BOOTSTRAP')
-                    ok2 = any((lab == 'F') == isinstance(t.ast.ops[0], ast.NotEq) for t, lab in gd2)
+                    ok2 = bool(ps_) and all(took(p_, isbs, lambda t, l: (l == 'T') == isinstance(t.ops[0], ast.Eq)) for p_ in ps_)
                     run.ob('R19.2', sc, c, 'only BOOTSTRAP status events count', ok2, slot='bootstrap-only', message='success reachable for non-BOOTSTRAP STATUS_CLIENT events')
                     # a pending timeout is cancelled before success is announced
                     canc = g.nodes_where(lambda x: any(is_call_to(a, 'self._timeout_delayed_call.cancel') for a in node_asts(x)))
@@ -132,6 +151,8 @@ def r19_2(run):
     pd = defs.get(PROG, [])
     kwn = names_defined_by(sc, lambda v: isinstance(v, ast.Call) and (dotted(v.func) or '').endswith('find_keywords'))
     ok = len(pd) == 1 and pd[0][0] == 'expr' and len(kwn) == 1 and src(pd[0][1]) == "int(%s['PROGRESS'])" % kwn[0]
+    if PROG_EXPR is not None:
+        ok = len(kwn) == 1 and src(PROG_EXPR) == "int(%s['PROGRESS'])" % kwn[0]
     run.ob('R19.2', sc, sc.node, 'progress is the PROGRESS field of the event', ok, slot='prog-source', message='prog = %s' % [src(d[1]) for d in pd if len(d) > 1])
     tc = PU(run, '_tor_connected')
     g = cfg_of(tc)
@@ -267,15 +288,46 @@ def r19_4(run):
     la = run.idx.unit(MOD + '.launch')
     g = cfg_of(la)
     # user_set_data_directory is True iff the caller supplied a directory
-    defs = [(n, assign_to(n.ast, FLAG)) for n in g.real_nodes() if n.kind == 'stmt' and assign_to(n.ast, FLAG) is not None]
-    run.floor('R19.4', 'definitions of user_set_data_directory', len(defs), 2)
-    for n, v in defs:
-        gd = g.guarded_by(n, lambda t: isinstance(t, ast.Compare) and dotted(t.left) == 'data_directory' and is_none(t.comparators[0]))
-        supplied = None
-        for t, lab in gd:
-            supplied = (lab == 'T') == isinstance(t.ast.ops[0], ast.IsNot)
-        ok = supplied is not None and const(v) is supplied
-        run.ob('R19.4', la, n.ast, 'the "caller supplied the directory" flag tells the truth', ok, slot='flag:%s' % const(v), message='user_set_data_directory = %s on the leg where a directory was %s' % (const(v), 'supplied' if supplied else 'not supplied'))
+    # flags that remember whether the caller supplied the directory: a local that is a boolean constant on each leg of a
+    # "data_directory is [not] None" test, or the value of such a test taken before data_directory is re-bound.
+    # meaning[name] = 'supplied' (true iff the caller gave a directory) | 'temp' (true iff launch makes its own)
+    meaning = {}
+    const_defs = {}
+    for n in g.real_nodes():
+        if n.kind != 'stmt' or not isinstance(n.ast, ast.Assign) or len(n.ast.targets) != 1 or not isinstance(n.ast.targets[0], ast.Name):
+            continue
+        nm, v = n.ast.targets[0].id, n.ast.value
+        if isinstance(const(v), bool):
+            const_defs.setdefault(nm, []).append((n, const(v)))
+        elif isinstance(v, ast.Compare) and len(v.ops) == 1 and dotted(v.left) == 'data_directory' and is_none(v.comparators[0]) and isinstance(v.ops[0], (ast.Is, ast.IsNot)):
+            early = all(r.kind == 'entry' or r.ast is None or not isinstance(r.ast, ast.Assign) for r in reaching_defs(g, n, 'data_directory'))
+            if early:
+                meaning[nm] = 'temp' if isinstance(v.ops[0], ast.Is) else 'supplied'
+            else:
+                run.ob('R19.4', la, n.ast, 'the "caller supplied the directory" flag is taken before the directory is re-bound', False, slot='flag-late:%s' % nm,
+                       message='%s is computed from data_directory after launch has assigned its own directory to it: it always says "supplied"' % nm)
+    k_flagdefs = 0
+    for nm, lst in const_defs.items():
+        sup = []
+        for n, cv in lst:
+            gd = g.guarded_by(n, lambda t: isinstance(t, ast.Compare) and dotted(t.left) == 'data_directory' and is_none(t.comparators[0]))
+            supplied = None
+            for t, lab in gd:
+                supplied = (lab == 'T') == isinstance(t.ast.ops[0], ast.IsNot)
+            sup.append((n, cv, supplied))
+        if any(s_ is None for _, _, s_ in sup) or len(sup) < 2:
+            continue
+        k_flagdefs += len(sup)
+        if all(cv == s_ for _, cv, s_ in sup):
+            meaning[nm] = 'supplied'
+        elif all(cv != s_ for _, cv, s_ in sup):
+            meaning[nm] = 'temp'
+        else:
+            for n, cv, s_ in sup:
+                run.ob('R19.4', la, n.ast, 'the "caller supplied the directory" flag tells the truth', False, slot='flag:%s' % cv,
+                       message='%s = %s on the leg where a directory was %s, the opposite on another leg' % (nm, cv, 'supplied' if s_ else 'not supplied'))
+    for nm, m in sorted(meaning.items()):
+        run.ob('R19.4', la, la.node, 'flag %s means: %s' % (nm, 'the caller supplied the directory' if m == 'supplied' else 'launch created the directory'), True)
     # deletion registrations only for the temporary directory
     regs = []
     for n in g.real_nodes():
@@ -286,9 +338,11 @@ def r19_4(run):
                 regs.append((n, 'trigger'))
     run.floor('R19.4', 'deletion registrations in launch', len(regs), 2)
     for n, kind in regs:
-        gd1 = g.guarded_by(n, lambda t: dotted(t) == FLAG)
+        gd1 = g.guarded_by(n, lambda t: dotted(t) in meaning)
         gd2 = g.guarded_by(n, lambda t: isinstance(t, ast.Compare) and dotted(t.left) == 'data_directory' and is_none(t.comparators[0]))
-        ok = any(lab == 'F' for _, lab in gd1) or any((lab == 'T') == isinstance(t.ast.ops[0], ast.Is) for t, lab in gd2)
+        # (a direct test of data_directory counts only where launch has not yet put its own directory there)
+        gd2 = [(t, lab) for t, lab in gd2 if all(r.kind == 'entry' or r.ast is None or not isinstance(r.ast, ast.Assign) for r in reaching_defs(g, t, 'data_directory'))]
+        ok = any((lab == 'T') == (meaning[dotted(t.ast)] == 'temp') for t, lab in gd1) or any((lab == 'T') == isinstance(t.ast.ops[0], ast.Is) for t, lab in gd2)
         run.ob('R19.4', la, n.ast, 'a caller-supplied data directory is never registered for deletion (%s)' % kind, ok, slot='delete-guard:%s@%d' % (kind, regs.index((n, kind))),
                message='launch registers the data directory for deletion (%s) without testing that it is the temporary one' % kind)
     has_td = any(k == 'to_delete' for _, k in regs)
@@ -312,7 +366,8 @@ def r19_4(run):
     mk = [n for n in g.real_nodes() if any(is_call_to(a, 'tempfile.mkdtemp') for a in node_asts(n))]
     for n in mk:
         gd = g.guarded_by(n, lambda t: isinstance(t, ast.Compare) and dotted(t.left) == 'data_directory' and is_none(t.comparators[0]))
-        ok = any((lab == 'T') == isinstance(t.ast.ops[0], ast.Is) for t, lab in gd)
+        gdf = g.guarded_by(n, lambda t: dotted(t) in meaning)
+        ok = any((lab == 'T') == isinstance(t.ast.ops[0], ast.Is) for t, lab in gd) or any((lab == 'T') == (meaning[dotted(t.ast)] == 'temp') for t, lab in gdf)
         run.ob('R19.4', la, n.ast, 'a temporary directory is created only when none was supplied', ok, slot='mkdtemp-guard', message='mkdtemp not guarded')
     # launch waits for the connected notification of the protocol it spawned
     wc = [c for c in calls_in(la) if dotted(c.func) == PPN + '.when_connected']
